@@ -9,7 +9,7 @@ RULE = ('inputs as C02 (incl. its boundary sweep), nestings of depth 33..120 of 
         'every statement, every node, every character offset, every child index; within/has_ancestor/is_child_of asked about every group class, the node itself, its children, every ancestor, '
         'a sibling and a node of another statement (full truth tables); token_next/token_prev in all four skip_ws/skip_cm variants; non-trivial = distinct input with at least one group node')
 ASSUMPTIONS = C02.ASSUMPTIONS + ['heap model of TokenList.__init__/group_tokens tied by S-HEAP (random call scripts on real objects); that grouping mutates the tree only through group_tokens is a syntactic check of grouping.py on every run']
-PARTIAL = ['bookkeeping clause: a theorem for every history of group_tokens calls on the heap model (SqlProps/C03 (d)), and the heap after any such history abstracts to the pure tree of the same calls (statement_history_refines_pure); that the 25 passes issue exactly such calls is the confinement check + S-TREE, and the result is also checked on the real objects',
+PARTIAL = ['bookkeeping clause: a theorem for every history of group_tokens calls on the heap model (SqlProps/C03 (d)), and the heap after any such history abstracts to the pure tree of the same calls (statement_history_refines_pure); that the tree of the pure model is the abstraction of a well-formed heap reached by such calls is a theorem too (grouped_statement_is_a_wellformed_object_graph); that the REAL passes issue only such calls is the confinement check + S-TREE + S-HEAP, and the result is also checked on the real objects',
            'only */operator tokens are re-typed: oracle only (the theorem allows any token to be re-typed to Operator)']
 
 
